@@ -156,6 +156,11 @@ def addNode (g : Graph) (n : Nat) (cs : List Nat) : Graph :=
 def ofMapping (m : List (Nat × List Nat)) : Graph :=
   m.foldl (fun g p => g.addNode p.1 p.2) empty
 
+/-- `TaskGraph.update_edges(mapping)`: re-runs `Graph.__init__(mapping)` on the live
+object, i.e. both dicts are replaced by fresh ones and filled from the mapping;
+nothing of the old state survives (name / job-graph reference are outside M3). -/
+def updateEdges (_g : Graph) (m : List (Nat × List Nat)) : Graph := ofMapping m
+
 /-- `get_children(node)`. -/
 def getChildren (g : Graph) (n : Nat) : Except String (List Nat) :=
   match List.lookup n g.children with
